@@ -102,9 +102,10 @@ class OptimizationAbstract(ABC, Generic[T]):
         if self._mode == ModeSolver.SERIAL:
             return [self._init_agent() for _ in range(0, n_agents)]
 
-        # Parallel mode
+        # Parallel mode: the random positions are drawn here, by the parent; worker processes inherit a copy of the
+        # parent's random generator, so positions drawn inside the workers would be the same in every worker
         with get_pool_executor(self._mode, self._workers) as executor:
-            executors = [executor.submit(self._init_agent) for _ in range(0, n_agents)]
+            executors = [executor.submit(self._init_agent, self._task.empty_solution()) for _ in range(0, n_agents)]
             pop = get_pool_results(executors)
         return pop
 
